@@ -387,7 +387,7 @@ def realBlock (a : AState) : AState × StepRes :=
 def anteInit (pr : Nat) (cr : Bool) : AState :=
   let s0 := initState pr cr
   let funded : Bank := fun h d => if d = "uusdc".toList && ((List.range 10).any (fun i => h = "a" ++ toString i) || (List.range 5).any (fun i => h = "o" ++ toString i)) then 1000000000000000 else 0
-  let a0 : AState := { s := { s0 with bank := funded }, grants := [], supply := fun d => if d = "uusdc".toList then 15000000000000000 else 0, prices := Facts.defaultGasPrices }
+  let a0 : AState := { s := { s0 with bank := funded }, grants := [], supply := fun d => if d = "uusdc".toList then 16000000000000000 else 0, prices := Facts.defaultGasPrices }
   (realBlock a0).1
 
 partial def anteLoop (stdin : IO.FS.Stream) (a : AState) : IO Unit := do
